@@ -820,6 +820,14 @@ def c18(tier, hook=None):
             for bounds in (None, "shared_empty"):
                 cases.append((named, 0, generic, "path2", generic, bounds))
                 mods.append((len(cases) - 1, rf.deref_module(len(cases) - 1, named, 0, generic, "path2", generic, bounds)))
+    # defaulted generic parameters; layout attributes on a single field that can never be misaligned
+    for named in (False, True) if not hook else ():
+        for entry in ("attr", "derive"):
+            cases.append((named, 0, True, entry, "default"))
+            mods.append((len(cases) - 1, rf.deref_module(len(cases) - 1, named, 0, True, entry, "default")))
+        for rp, ti in (("packed", 2), ("C, packed", 2), ("packed(1)", 2), ("C", 0), ("transparent", 1), ("align(8)", 0)):
+            cases.append((named, ti, False, "attr" if named else "derive", False, None, rp))
+            mods.append((len(cases) - 1, rf.deref_module(len(cases) - 1, named, ti, False, "attr" if named else "derive", False, None, rp)))
     # field names of other lexical kinds: raw keywords (`r#type` must stay raw in `self.r#type`), a name the generator uses itself
     for fnm in ("r#type", "r#fn", "r#match", "r#box", "r#self_", "__self", "target", "deref") if not hook else ():
         for generic in (False, True):
